@@ -298,6 +298,8 @@ fn op_kind(o: &Op) -> u8 {
         Op::SetPingresp { ms } => 162 + (*ms != 0) as u8,
         Op::SetAuto { which, on } => 164 + 2 * which + *on as u8,
         Op::Coalesce { qos, .. } => 172 + qos,
+        Op::SendUnowned { kind } => 176 + kind,
+        Op::ConnackAgain { .. } => 181,
         Op::Advance { .. } => 121,
         Op::Close { partial } => 122 + (*partial != 0) as u8,
         Op::Crash => 124,
@@ -818,7 +820,7 @@ fn gen_c16(rng: &mut Rng, tier: Tier, run: u64) -> (Case, Outcome) {
         let clen = rng.range(2, 12);
         let mut cont = twin::gen_script(&mut u, rng, &cprof, clen, &first);
         cont.push(Op::Drain);
-        let mangle = if rng.chance(1, 4) { ExportMangle::DuplicateAll } else { ExportMangle::None };
+        let mangle = if rng.chance(1, 4) { ExportMangle::DuplicateAll } else if !cfg.as_client && rng.chance(1, 3) { ExportMangle::LateRestore } else { ExportMangle::None };
         let fo = fork_outcome(ForkKind::Crash, &cfg, &ops, &cont, mangle);
         *o.stats.probes.entry("c16_crash_points").or_insert(0) += 1;
         *o.faults.entry("crash_restart".into()).or_insert(0) += 1;
@@ -828,7 +830,9 @@ fn gen_c16(rng: &mut Rng, tier: Tier, run: u64) -> (Case, Outcome) {
         if handled {
             o.stats.hit("c16_crash_with_handled_qos2");
         }
-        if mangle != ExportMangle::None {
+        if mangle == ExportMangle::LateRestore {
+            o.stats.hit("c16_restore_after_connect");
+        } else if mangle != ExportMangle::None {
             o.stats.hit("c16_malformed_export_duplicates");
         }
         o.steps += fo.steps;
